@@ -151,3 +151,10 @@ def validate_regex_model():
     extra = {"regex_model_validation": {"strings_compared": n, "mismatches": bad, "alphabet_classes": sl.alpha.n, "max_length": maxlen, "rows": rows, "wall_s": round(time.time() - t0, 2)}}
     print(f"regex model validation: {n} (pattern, method, string) comparisons against stdlib re, {bad} mismatches")
     return (2 if bad else 0), extra
+
+
+@obligation("C20-X12", "def-use lints over the files this property is anchored in (api.py, w3c.py): no one-shot iterator (generator expression, map, filter, zip, iter, reversed, enumerate, generator call) bound to a name is consumed twice or inside a loop that starts after its creation; no mutable default argument is mutated, stored or returned", floor=1)
+def x12(cx: Cx, ob: Ob) -> None:
+    from ..rules import package_lints
+
+    package_lints(cx, ob, {'api.py', 'w3c.py'})
